@@ -213,13 +213,6 @@ func (d *decompressor) using(b Block) *decompressor { d.blk = b; return d }
 // holds a valid gzip.Header and base offset.
 func (d *decompressor) nextBlockAt(off int64, rs io.ReadSeeker) *decompressor {
 	d.err = nil
-	for {
-		exists, next := d.owner.cacheHasBlockFor(off)
-		if !exists {
-			break
-		}
-		off = next
-	}
 
 	d.lazyBlock()
 
@@ -439,6 +432,17 @@ func NewReader(r io.Reader, rd int) (*Reader, error) {
 						}
 					default:
 					}
+				}
+				// Read ahead of what the cache already holds. Only the
+				// read-ahead may skip: a block that is asked for must be
+				// loaded even if the cache claims to hold it, since the
+				// cached Block may not be usable (another Reader's).
+				for {
+					exists, after := bg.cacheHasBlockFor(next)
+					if !exists {
+						break
+					}
+					next = after
 				}
 				dec.nextBlockAt(next, nil)
 				next = dec.blk.NextBase()
